@@ -85,11 +85,6 @@ def run(chk):
             return True
         t = prog.resolve_call(repo, call)
         return t is not None and depth < 2 and t.cls is ac.cls and any(exits_own(c, depth + 1) for c in prog.calls_in(t.node))
-    fb = [(c, None) for c in prog.calls_in(ac.node) if exits_own(c) and PC.has_lit(PC.pc(c), "self.on_cleanup.frozen", False) is not None]
-    if fb and K.exprs(ac, "self.on_cleanup.send(self)"):
-        chk.ok("C20.fallback", fb[0][0], "Application.cleanup(): if startup failed before the signals were frozen the started contexts are still exited")
-    else:
-        chk.violation("C20.fallback", ac, "else: await self._cleanup_ctx._on_cleanup(self)", "!(self.on_cleanup.frozen)", "after a failed startup Application.cleanup() exits no context")
     init = repo.func(APP, "Application.__init__")
     if M.contains(init.node, "self._on_startup.append(self._cleanup_ctx._on_startup)") or "_cleanup_ctx._on_startup" in norm.raw(init.node):
         if "_cleanup_ctx._on_cleanup" in norm.raw(init.node):
@@ -144,47 +139,64 @@ def run(chk):
         chk.ok("C20.subapps", reg, "a sub-application's startup and cleanup (hence its cleanup contexts) are driven by the parent's signals")
     else:
         chk.violation("C20.subapps", reg, "reg_handler('on_startup'); reg_handler('on_cleanup')", f"wired: {sorted(wired)}", "sub-application contexts are not started / exited with the parent")
-    # (a) failed startup: the fallback of Application.cleanup must reach the sub-applications whose startup had completed
+    # decided on the paths of Application.cleanup(), whatever its shape: (fallback) every normal path exits the started contexts - also when the
+    # cleanup signal was never frozen because startup failed; (subapps) what it calls for that reaches the sub-applications; (isolate) the contexts
+    # are exited also when the cleanup signal raises (Signal.send stops at the first failing receiver); (reverse) they are exited *before* the
+    # signal's receivers run in registration order (parent first), i.e. in reverse startup order with sub-applications first
     def reaches_subapps(fn, depth=0):
         if any(isinstance(n, ast.Attribute) and n.attr == "_subapps" for n in ast.walk(fn.node)):
             return True
         return depth < 2 and any((t := prog.resolve_call(repo, c)) is not None and t.cls is fn.cls and reaches_subapps(t, depth + 1) for c in prog.calls_in(fn.node))
-    fbn = [n for n in ast.walk(ac.node) if isinstance(n, ast.If) and "on_cleanup.frozen" in norm.raw(n.test)]
-    if not fbn:
-        chk.violation("C20.subapps", ac, "if self.on_cleanup.frozen: ... else: ...", "", "no fallback for a failed startup")
-    else:
-        branch = fbn[0].orelse if PC.has_lit(norm.cnf_raw(fbn[0].test, True), "self.on_cleanup.frozen", True) is not None else fbn[0].body
-        holder = ast.Module(body=branch, type_ignores=[])
-        direct = any(isinstance(n, ast.Attribute) and n.attr == "_subapps" for n in ast.walk(holder))
-        via = any((t := prog.resolve_call(repo, c)) is not None and t.cls is ac.cls and reaches_subapps(t) for c in ast.walk(holder) if isinstance(c, ast.Call))
-        if direct or via:
-            chk.ok("C20.subapps", fbn[0], "after a failed startup Application.cleanup() also exits the started contexts of sub-applications")
-        else:
-            chk.violation("C20.subapps", branch[0] if branch else ac, K.short(branch[0]) if branch else "else:", "for subapp in self._subapps: <exit its started contexts>",
-                          "a startup step fails after a sub-application's contexts were entered (a later on_startup handler, or a later context of the sub-application): Application.cleanup() exits only the parent's own contexts, the sub-application's started contexts are never exited")
-    # (b) normal cleanup: one failing receiver must not keep the contexts of other applications from being exited
     ga = cfg_of(ac.node)
+    def exits_ctx(n):
+        return isinstance(n.ast, ast.AST) and any(exits_own(c) for c in K.node_calls(n))
+    def exits_all(n):
+        return isinstance(n.ast, ast.AST) and any(exits_own(c) and ((t := prog.resolve_call(repo, c)) is not None and reaches_subapps(t)) for c in K.node_calls(n))
     sends = K.nodes_matching(ac, "self.on_cleanup.send(self)")
+    p_norm = ga.find_path([ga.entry], ga.is_exit, exits_ctx, EXPLICIT)
+    if p_norm is None and sends:
+        chk.ok("C20.fallback", ac, "Application.cleanup(): every path exits the started contexts, also when startup failed before the signals were frozen")
+    else:
+        chk.violation("C20.fallback", ac, "else: await self._cleanup_ctx._on_cleanup(self)", "!(self.on_cleanup.frozen)", "after a failed startup Application.cleanup() exits no context", path=ga.fmt_path(p_norm) if p_norm else "")
+    p_sub = ga.find_path([ga.entry], ga.is_exit, exits_all, EXPLICIT)
+    if p_sub is None:
+        chk.ok("C20.subapps", ac, "Application.cleanup() also exits the started contexts of sub-applications on every path (failed startup included)")
+    else:
+        chk.violation("C20.subapps", ac, "Application.cleanup()", "for subapp in self._subapps: <exit its started contexts>",
+                      "a startup step fails after a sub-application's contexts were entered (a later on_startup handler, or a later context of the sub-application): Application.cleanup() exits only the parent's own contexts, the sub-application's started contexts are never exited", path=ga.fmt_path(p_sub))
     if "on_cleanup" in wired and sends:
-        def exits_all(n):
-            return any((t := prog.resolve_call(repo, c)) is not None and t.cls is ac.cls and reaches_subapps(t) and "_on_cleanup" in norm.raw(t.node) for c in K.node_calls(n))
         per_receiver = [f for f in ast.walk(ac.node) if isinstance(f, (ast.For, ast.AsyncFor)) and "on_cleanup" in norm.raw(f.iter)]
-        p = ga.find_path(None, ga.is_exit, exits_all, ALL, [(sends[0], "x-await"), (sends[0], "x-call")])
-        if p is None and not consuming:
+        # when the send raises: contexts were exited before it, or are exited on the way out
+        before = ga.find_path([ga.entry], lambda n: n in sends, exits_all, EXPLICIT) is None
+        p = None if before else ga.find_path(None, ga.is_exit, exits_all, ALL, [(sends[0], "x-await"), (sends[0], "x-call")])
+        if (before or p is None) and not consuming:
             chk.violation("C20.isolate", sends[0].ast, K.short(sends[0].ast), "CleanupContext._on_cleanup forgets a context before exiting it",
                           "contexts are exited by the signal and again by the fallback that follows it: hand-written context managers have their exit code run twice")
-        elif p is None or per_receiver:
+        elif before or p is None or per_receiver:
             chk.ok("C20.isolate", sends[0].ast, "when a cleanup receiver raises, the started contexts of every (sub-)application are still exited, each at most once")
         else:
             chk.violation("C20.isolate", sends[0].ast, K.short(sends[0].ast), "try: await self.on_cleanup.send(self) finally: <exit the remaining started contexts>",
                           "the cleanup contexts of the parent and of every sub-application are exited by different receivers of one Signal.send(), which stops at the first receiver that raises: a failing cleanup step of the parent (its contexts run first) leaves every sub-application's contexts un-exited",
                           path=ga.fmt_path(p))
+        if before:
+            chk.ok("C20.reverse", sends[0].ast, "the contexts are exited (sub-applications first) before the cleanup signal's receivers run: reverse startup order across applications")
+        else:
+            chk.violation("C20.reverse", sends[0].ast, K.short(sends[0].ast), "await self._exit_started_contexts() before the cleanup signal",
+                          "with sub-applications the contexts are exited by the cleanup signal's receivers in registration order - the parent's own contexts first, then each sub-application's: the teardown of a sub-application's context (started last) finds the parent's resources (started first, e.g. the db pool) already closed; the failed-startup path exits the same contexts in true reverse order, so the two paths disagree")
     sh = repo.func(PROTO, "RequestHandler.shutdown")
     gs = cfg_of(sh.node)
     tos = [w for w in ast.walk(sh.node) if isinstance(w, ast.AsyncWith) and any(norm.raw(it.context_expr) == "ceil_timeout(timeout)" for it in w.items)]
     aws = prog.awaits_in(sh.node)
-    if len(tos) == 2 and all(any(any(x is w for x in prog.enclosing(a, (ast.AsyncWith,))) for w in tos) for a in aws):
-        chk.ok("C20.order", sh, "RequestHandler.shutdown(): every await is under one of exactly two ceil_timeout(timeout) scopes (at most twice the timeout)")
+    scoped = [a for a in aws if any(any(x is w for x in prog.enclosing(a, (ast.AsyncWith,))) for w in tos)]
+    # the flush wait: bounded by the same timeout, only for a connection whose write buffer is not empty - and a connection with a request in
+    # progress had its transport aborted just before (an aborted transport has an empty buffer), so this wait never adds to the two above
+    flush = [a for a in aws if a not in scoped and isinstance(a.value, ast.Call) and norm.raw(a.value.func) in ("asyncio.wait", "asyncio.wait_for")
+             and any(k.arg == "timeout" and norm.raw(k.value) == "timeout" for k in a.value.keywords)
+             and any("get_write_buffer_size" in l.text for c_ in PC.pc(a, raw=True) for l in c_)]
+    aborted_first = [c for c in prog.calls_in(sh.node) if norm.raw(c.func) == "self.transport.abort" and PC.has_lit(PC.pc(c, raw=True), "self._request_in_progress", True) is not None
+                     and all(c.lineno < a.lineno for a in flush)]
+    if len(tos) == 2 and len(flush) <= 1 and set(map(id, aws)) == set(map(id, scoped + flush)) and (not flush or aborted_first):
+        chk.ok("C20.order", sh, "RequestHandler.shutdown(): every await is under one of exactly two ceil_timeout(timeout) scopes (at most twice the timeout)" + ("; the flush wait of an idle connection is bounded by the same timeout and excluded for a connection whose handler was cancelled (transport aborted first)" if flush else ""))
     else:
         chk.violation("C20.order", sh, "two `async with ceil_timeout(timeout)` scopes", f"{len(tos)} scopes, {len(aws)} awaits", "a handler that ignores cancellation delays shutdown beyond twice the timeout")
     fcs = K.nodes_matching(sh, "self.force_close()")
@@ -246,6 +258,7 @@ def run(chk):
                 chk.ok("C20.entry", c, "GunicornWebWorker._run: runner.setup() is inside a try that awaits runner.cleanup() when startup fails")
             else:
                 chk.violation("C20.entry", c, "await runner.setup()", "try: ... except BaseException: await runner.cleanup(); raise", "gunicorn worker: when a later startup step fails, contexts whose startup completed are never exited")
+    hunt2_rules(chk, repo)
     # ---- drain: a request that is being handled keeps receiving its input while the server waits for it ---------------------------
     dr = repo.func(PROTO, "RequestHandler.data_received")
     drops = [r for r in ast.walk(dr.node) if isinstance(r, ast.Return) and r.value is None and any(t in norm.fmt_cnf(PC.pc(r)) for t in ("self._close", "self._force_close"))]
@@ -282,3 +295,48 @@ def run(chk):
                 else:
                     chk.violation("C20.idle", c, K.short(c), "only in force_close()/start(), or under `not self._waiter.done()`",
                                   f"{name}() closes the transport of a connection that may already have a request queued (waiter resolved, handler not yet resumed): the request is handled but its response is lost")
+
+
+def hunt2_rules(chk, repo):
+    """Rules written after the second defect hunt (F153-F156)."""
+    # ---- C20.entry: every entry point of the package that sets a runner up undoes a half-completed startup (not a hand-picked list) ------------
+    n = 0
+    for mod in repo.all_modules():
+        if not mod.rel.startswith("aiohttp/") or mod.rel in (WEB, "aiohttp/worker.py", RUN):
+            continue  # run_app and the gunicorn worker have their own instances above; web_runner defines setup()
+        for fn in [f for c in mod.classes.values() for f in c.methods.values()] + list(mod.functions.values()):
+            for c in prog.calls_in(fn.node):
+                if not (isinstance(c.func, ast.Attribute) and c.func.attr == "setup" and "runner" in norm.raw(c.func.value).lower()):
+                    continue
+                n += 1
+                okw = False
+                for t in prog.enclosing(c, (ast.Try,)):
+                    if prog.in_body_of(c, t, "body") and (any(M.contains(s_, "$R.cleanup()") for s_ in t.finalbody)
+                                                            or any(M.contains(h, "$R.cleanup()") and (h.type is None or "BaseException" in PC.handler_types(h)) for h in t.handlers)):
+                        okw = True
+                if okw:
+                    chk.ok("C20.entry", c, f"{fn.qualname}: runner.setup() is inside a try that awaits runner.cleanup() when startup fails")
+                else:
+                    chk.violation("C20.entry", c, K.short(c), "try: ... except BaseException: await runner.cleanup(); raise",
+                                  f"{fn.qualname} (test_utils entry point: TestServer / TestClient / AioHTTPTestCase): when a later startup step fails, the contexts whose startup completed are never exited and the exception leaves __aenter__ with them open")
+    chk.expect_count("C20.entry.other", n, 1, "runner.setup() call sites outside web.py / worker.py")
+    # ---- C20.accept: a connection that becomes established after the shutdown began is not served ---------------------------------------------
+    srv = repo.cls(SRV, "Server")
+    ps, cm = srv.methods["pre_shutdown"], srv.methods["connection_made"]
+    flags = {norm.raw(a.targets[0]) for a in ast.walk(ps.node) if isinstance(a, ast.Assign) and isinstance(a.value, ast.Constant) and a.value.value is True}
+    seen = [i for i in ast.walk(cm.node) if isinstance(i, ast.If) and norm.raw(i.test) in flags and any(isinstance(c, ast.Call) and isinstance(c.func, ast.Attribute) and c.func.attr in ("close", "abort") for b_ in i.body for c in ast.walk(b_))]
+    if seen:
+        chk.ok("C20.accept", seen[0], "Server.connection_made(): a connection registered after pre_shutdown() is closed at once")
+    else:
+        chk.violation("C20.accept", cm, "self._connections[handler] = transport", "if <shutting down>: handler.close(); transport.close()",
+                      "a connection accepted before the sites stopped but established afterwards (a TLS handshake that completes during shutdown) is invisible to the shutdown sequence: it is not in the gather(), _connections.clear() forgets it, a request on it is answered during shutdown and the connection is still open - and served - after cleanup() returned and the cleanup contexts exited")
+    # ---- C20.flush: an idle connection still flushing a finished response is closed when the shutdown timeout expires ---------------------------
+    sh = repo.func(PROTO, "RequestHandler.shutdown")
+    fc = [c for c in prog.calls_in(sh.node) if norm.raw(c.func) == "self.force_close"]
+    ab = [c for c in prog.calls_in(sh.node) if isinstance(c.func, ast.Attribute) and c.func.attr == "abort" and fc and c.lineno > fc[-1].lineno]
+    bounded = [a for a in prog.awaits_in(sh.node) if fc and a.lineno > fc[-1].lineno]
+    if ab and bounded:
+        chk.ok("C20.flush", ab[0], "shutdown(): after force_close() a connection whose write buffer is not empty gets the timeout to flush and is then aborted")
+    else:
+        chk.violation("C20.flush", fc[-1] if fc else sh, "self.force_close()", "wait for connection_lost within the timeout, then transport.abort()",
+                      "force_close() ends in transport.close(), which flushes first: an idle keep-alive connection whose complete response is still partly buffered for a client that does not read survives cleanup() - the socket stays open until the peer reads, with no handler and no timeout")
